@@ -504,3 +504,185 @@ func ruleIter5(c *Ctx) []*Ob {
 	}
 	return o.list
 }
+
+func init() {
+	register(&Rule{
+		ID: "ITER-6",
+		Doc: "Restart moves the whole position: the iterator that startIterator built for the restart in iterator.SeekTo is dropped afterwards, so on every path from the call's nil-error edge " +
+			"to a return both of its position-carrying fields, cursors and lowerLevelIter, are stored into the live iterator (iter.cursors = iterNew.cursors; iter.lowerLevelIter = iterNew.lowerLevelIter). " +
+			"Leaving one behind makes Next advance the old lower-level iterator from its old position (keys that live only in the lower level are skipped) and leaks the new one.",
+		Props: []string{"C09", "C10"},
+		Floor: 1,
+		Run:   ruleIter6,
+	})
+	register(&Rule{
+		ID: "ITER-7",
+		Doc: "Done means done: in iteratorSingle.Next and iteratorSingle.SeekTo a return of the error that the segment cursor reported (sc.Next / sc.Seek) is dominated by a store op = 0 " +
+			"(Current and CurrentEx report ErrIteratorDone exactly when op == 0), with no store of a fetched operation in between.",
+		Props: []string{"C09"},
+		Floor: 2,
+		Run:   ruleIter7,
+	})
+}
+
+func ruleIter6(c *Ctx) []*Ob {
+	o := newObs(c, "ITER-6")
+	f := c.Fn("(*iterator).SeekTo")
+	fn := c.fname(f)
+	si := c.Fn("(*segmentStack).startIterator")
+	fields := []*types.Var{c.Field("iterator", "cursors"), c.Field("iterator", "lowerLevelIter")}
+	recv := f.Params[0]
+	n := 0
+	for _, k := range callsToFn(f, si) {
+		n++
+		res := firstResult(k)
+		for _, fv := range fields {
+			fv := fv
+			isMove := func(i ssa.Instruction) bool {
+				st, ok := i.(*ssa.Store)
+				if !ok {
+					return false
+				}
+				dst, base := asFieldAddr(st.Addr)
+				if dst != fv || base == nil {
+					return false
+				}
+				toLive := false
+				for _, og := range origins(base) {
+					if og == ssa.Value(recv) {
+						toLive = true
+					}
+				}
+				if !toLive {
+					return false
+				}
+				src, sbase := loadedField(st.Val)
+				if src != fv || sbase == nil || res == nil {
+					return false
+				}
+				for _, og := range origins(sbase) {
+					if og == res {
+						return true
+					}
+				}
+				return false
+			}
+			bad := ""
+			walk(after(k), walkOpts{
+				origin: k, originIdx: errResultIndex(k.Call.Signature()), noInline: true,
+				visit: func(i ssa.Instruction, t *tracker) bool {
+					if bad != "" || isMove(i) {
+						return true
+					}
+					if _, ok := i.(*ssa.Return); ok {
+						bad = c.instrPos(i)
+						return true
+					}
+					return false
+				},
+				edge: func(from, to *ssa.BasicBlock, label string, cond ssa.Value, onTrue bool, _ *tracker) bool {
+					return bad != "" || label == "nonnil"
+				},
+			})
+			why := "moved into the live iterator on every path after a successful restart"
+			if bad != "" {
+				why = "after a successful restart a path reaches the return at " + bad + " without iter." + fv.Name() + " = iterNew." + fv.Name() +
+					": the live iterator keeps its old " + fv.Name() + " (Next continues from the old position; keys between the seek key and the old position are skipped) and the new one is leaked"
+			}
+			o.add(fn, "restart moves "+fv.Name(), c.instrPos(k), bad == "", why)
+		}
+	}
+	if n == 0 {
+		o.add(fn, "restart via startIterator", c.pos(f.Pos()), false, "anchor lost: iterator.SeekTo no longer restarts through segmentStack.startIterator")
+	}
+	return o.list
+}
+
+func ruleIter7(c *Ctx) []*Ob {
+	o := newObs(c, "ITER-7")
+	fOp := c.Field("iteratorSingle", "op")
+	fSc := c.Field("iteratorSingle", "sc")
+	for _, name := range []string{"(*iteratorSingle).Next", "(*iteratorSingle).SeekTo"} {
+		f := c.Fn(name)
+		fn := c.fname(f)
+		isZeroOp := func(i ssa.Instruction) bool {
+			st, ok := i.(*ssa.Store)
+			if !ok {
+				return false
+			}
+			fv, _ := asFieldAddr(st.Addr)
+			return fv == fOp && isZeroConst(st.Val)
+		}
+		isFetchOp := func(i ssa.Instruction) bool {
+			st, ok := i.(*ssa.Store)
+			if !ok {
+				return false
+			}
+			fv, _ := asFieldAddr(st.Addr)
+			if fv != fOp {
+				return false
+			}
+			_, isK := st.Val.(*ssa.Const)
+			return !isK
+		}
+		n := 0
+		eachInstr(f, func(i ssa.Instruction) {
+			r, ok := i.(*ssa.Return)
+			if !ok || len(r.Results) != 1 || isNilConst(r.Results[0]) {
+				return
+			}
+			// the error comes from a call on the segment cursor
+			fromCursor := false
+			for _, og := range origins(r.Results[0]) {
+				call, isC := og.(*ssa.Call)
+				if !isC {
+					if e, isE := og.(*ssa.Extract); isE {
+						call, isC = e.Tuple.(*ssa.Call)
+					}
+				}
+				if isC && call.Call.IsInvoke() {
+					if fv, _ := loadedField(call.Call.Value); fv == fSc {
+						fromCursor = true
+					}
+				}
+			}
+			if !fromCursor {
+				return
+			}
+			n++
+			// a zeroing store dominates the return, and no fetch store lies between it and the return
+			dominated := mustPrecede(f, i, isZeroOp, nil)
+			refetched := false
+			if dominated {
+				eachInstr(f, func(z ssa.Instruction) {
+					if !isZeroOp(z) {
+						return
+					}
+					walk(after(z), walkOpts{noInline: true, visit: func(j ssa.Instruction, t *tracker) bool {
+						if j == i {
+							return true
+						}
+						if isFetchOp(j) {
+							// is the return reachable from here without another zeroing store?
+							if _, reach := reachableFrom(j, func(q ssa.Instruction) bool { return q == i }, isZeroOp, nil); reach {
+								refetched = true
+							}
+							return true
+						}
+						return isZeroOp(j)
+					}})
+				})
+			}
+			ok2 := dominated && !refetched
+			why := "op = 0 is stored on every path before the cursor's error is returned"
+			if !ok2 {
+				why = "the cursor's error (ErrIteratorDone) is returned on a path on which op was not reset to 0: SeekTo/Next report done but Current keeps returning the stale key and value with a nil error"
+			}
+			o.add(fn, "return of the cursor's error", c.instrPos(i), ok2, why)
+		})
+		if n == 0 {
+			o.add(fn, "return of the cursor's error", c.pos(f.Pos()), false, "anchor lost: the function no longer returns the segment cursor's error")
+		}
+	}
+	return o.list
+}
